@@ -19,37 +19,37 @@ import (
 // the standard library's generic GCM). The switch is only flipped between
 // workloads, never while operations are in flight.
 
-var asmDetected = candoAsm
-var asmMu sync.Mutex
+var zvAsmDetected = candoAsm
+var zvAsmMu sync.Mutex
 
-func paths() []bool {
-	if asmDetected {
+func zvPaths() []bool {
+	if zvAsmDetected {
 		return []bool{true, false}
 	}
 	return []bool{false}
 }
 
-func pathName(asm bool) string {
+func zvPathName(asm bool) string {
 	if asm {
 		return "asm"
 	}
 	return "portable"
 }
 
-func withAsm(on bool, f func()) {
-	asmMu.Lock()
+func zvWithAsm(on bool, f func()) {
+	zvAsmMu.Lock()
 	old := candoAsm
-	candoAsm = on && asmDetected
-	defer func() { candoAsm = old; asmMu.Unlock() }()
+	candoAsm = on && zvAsmDetected
+	defer func() { candoAsm = old; zvAsmMu.Unlock() }()
 	f()
 }
 
 // newAEAD builds an AEAD the way callers do (through crypto/cipher); the two
 // families the standard library exposes are (any nonce size, tag 16) and
 // (nonce 12, tag 12..16).
-var aeadFamilyCounter uint32
+var zvAeadFamilyCounter uint32
 
-func newAEAD(key []byte, nonceSize, tagSize int) (cipher.AEAD, error) {
+func zvNewAEAD(key []byte, nonceSize, tagSize int) (cipher.AEAD, error) {
 	blk, err := NewCipher(key)
 	if err != nil {
 		return nil, err
@@ -57,7 +57,7 @@ func newAEAD(key []byte, nonceSize, tagSize int) (cipher.AEAD, error) {
 	switch {
 	case nonceSize == 12 && tagSize == 16:
 		// the default shape is reachable through all three constructors; rotate through them
-		switch atomic.AddUint32(&aeadFamilyCounter, 1) % 3 {
+		switch atomic.AddUint32(&zvAeadFamilyCounter, 1) % 3 {
 		case 1:
 			return cipher.NewGCMWithNonceSize(blk, 12)
 		case 2:
@@ -76,13 +76,13 @@ func newAEAD(key []byte, nonceSize, tagSize int) (cipher.AEAD, error) {
 	}); ok {
 		return g.NewGCM(nonceSize, tagSize)
 	}
-	return nil, errComboUnreachable
+	return nil, zvErrComboUnreachable
 }
 
 // errComboUnreachable: a (nonce size, tag size) pair that no constructor of this path offers - nothing to judge.
-var errComboUnreachable = fmt.Errorf("combination of non-standard nonce and tag size is not reachable on this path")
+var zvErrComboUnreachable = fmt.Errorf("combination of non-standard nonce and tag size is not reachable on this path")
 
-func newAEADFromBlock(blk cipher.Block, nonceSize, tagSize int) (cipher.AEAD, error) {
+func zvNewAEADFromBlock(blk cipher.Block, nonceSize, tagSize int) (cipher.AEAD, error) {
 	switch {
 	case nonceSize == 12 && tagSize == 16:
 		return cipher.NewGCM(blk)
@@ -94,7 +94,7 @@ func newAEADFromBlock(blk cipher.Block, nonceSize, tagSize int) (cipher.AEAD, er
 	return nil, fmt.Errorf("combination (nonce %d, tag %d) is not reachable through crypto/cipher", nonceSize, tagSize)
 }
 
-type gcmCase struct {
+type zvGcmCase struct {
 	key, nonce, aad, pt []byte
 	tag                 int
 	label               string
@@ -102,7 +102,7 @@ type gcmCase struct {
 
 // kernelClass names which of the 256/128/64/32/16-byte kernels and what tail a
 // plaintext length drives in the fused assembly.
-func kernelClass(n int) string {
+func zvKernelClass(n int) string {
 	n256 := n / 256
 	if n256 > 2 {
 		n256 = 2 // 2 = "two or more"
@@ -115,7 +115,7 @@ func kernelClass(n int) string {
 	return fmt.Sprintf("n256=%d,b128=%d,b64=%d,b32=%d,b16=%d,tail=%d", n256, r/128, (r%128)/64, (r%64)/32, (r%32)/16, n%16)
 }
 
-func ghashClass(n int) string {
+func zvGhashClass(n int) string {
 	blocks := n / 16
 	way := "1way"
 	if blocks >= 8 {
@@ -127,57 +127,57 @@ func ghashClass(n int) string {
 	return fmt.Sprintf("%s,rem4=%d,tail=%v", way, blocks%4, n%16 != 0)
 }
 
-func nonceClass(n int) string {
+func zvNonceClass(n int) string {
 	if n == 12 {
 		return "nonce12"
 	}
-	return "nonce:" + ghashClass(n)
+	return "nonce:" + zvGhashClass(n)
 }
 
-func (c *gcmCase) class() string {
-	return fmt.Sprintf("pt[%s]|aad[%s]|%s|tag%d", kernelClass(len(c.pt)), ghashClass(len(c.aad)), nonceClass(len(c.nonce)), c.tag)
+func (c *zvGcmCase) class() string {
+	return fmt.Sprintf("pt[%s]|aad[%s]|%s|tag%d", zvKernelClass(len(c.pt)), zvGhashClass(len(c.aad)), zvNonceClass(len(c.nonce)), c.tag)
 }
 
-func clip(b []byte) string {
+func zvClip(b []byte) string {
 	if len(b) > 4096 {
 		return hk.Hex(b[:4096]) + fmt.Sprintf("...(%d bytes, PRNG-determined)", len(b))
 	}
 	return hk.Hex(b)
 }
 
-func (c *gcmCase) detail() hk.D {
-	return hk.D{"key": hk.Hex(c.key), "nonce": hk.Hex(c.nonce), "aad": clip(c.aad), "pt": clip(c.pt), "tag_size": c.tag, "label": c.label,
+func (c *zvGcmCase) detail() hk.D {
+	return hk.D{"key": hk.Hex(c.key), "nonce": hk.Hex(c.nonce), "aad": zvClip(c.aad), "pt": zvClip(c.pt), "tag_size": c.tag, "label": c.label,
 		"lens": fmt.Sprintf("nonce=%d aad=%d pt=%d", len(c.nonce), len(c.aad), len(c.pt))}
 }
 
-var lenClasses = []int{0, 1, 15, 16, 17, 31, 32, 33, 47, 48, 63, 64, 65, 79, 80, 95, 96, 127, 128, 129, 143, 191, 192, 255, 256, 257, 271, 383, 384, 511, 512, 513, 640, 767, 768, 1023, 1024, 1025, 1100}
+var zvLenClasses = []int{0, 1, 15, 16, 17, 31, 32, 33, 47, 48, 63, 64, 65, 79, 80, 95, 96, 127, 128, 129, 143, 191, 192, 255, 256, 257, 271, 383, 384, 511, 512, 513, 640, 767, 768, 1023, 1024, 1025, 1100}
 
 // gcmCases builds the deterministic C06 case list (shared by C06/C07/C10/C11).
-func gcmCases(rng *hk.RNG, scale int) []*gcmCase {
-	var cs []*gcmCase
-	mk := func(label string, nl, al, pl, tag int) *gcmCase {
-		return &gcmCase{key: rng.Bytes(16), nonce: rng.Bytes(nl), aad: rng.Bytes(al), pt: rng.Bytes(pl), tag: tag, label: label}
+func zvGcmCases(rng *hk.RNG, scale int) []*zvGcmCase {
+	var cs []*zvGcmCase
+	mk := func(label string, nl, al, pl, tag int) *zvGcmCase {
+		return &zvGcmCase{key: rng.Bytes(16), nonce: rng.Bytes(nl), aad: rng.Bytes(al), pt: rng.Bytes(pl), tag: tag, label: label}
 	}
 	// every plaintext length and every aad length 0..1100, other dimensions from the class table
 	offset := rng.Intn(3)
 	for l := 0; l <= 1100; l++ {
-		if scale < 2 && l%3 != offset && !isClassLen(l) {
+		if scale < 2 && l%3 != offset && !zvIsClassLen(l) {
 			// quick tier: a third of the lengths per run (seed-rotated), all class lengths always
 			continue
 		}
-		cs = append(cs, mk("pt-sweep", 12, rng.Pick(lenClasses[:24]), l, 16))
-		cs = append(cs, mk("aad-sweep", 12, l, rng.Pick(lenClasses[:24]), 16))
+		cs = append(cs, mk("pt-sweep", 12, rng.Pick(zvLenClasses[:24]), l, 16))
+		cs = append(cs, mk("aad-sweep", 12, l, rng.Pick(zvLenClasses[:24]), 16))
 	}
 	// nonce lengths 1..300 at tag 16
 	for nl := 1; nl <= 300; nl++ {
-		cs = append(cs, mk("nonce-sweep", nl, rng.Pick(lenClasses[:12]), rng.Pick(lenClasses[:24]), 16))
+		cs = append(cs, mk("nonce-sweep", nl, rng.Pick(zvLenClasses[:12]), rng.Pick(zvLenClasses[:24]), 16))
 	}
 	// lengths CONGRUENT to the special ones modulo a register width: the nonce length 12 selects another
 	// derivation of the pre-counter block, 0 and multiples of 16 select other kernels; a comparison or a
 	// counter that is narrower than the length (8, 16 bits; 24 in thorough) confuses 12 + 2^k with 12
 	for _, k := range []uint{8, 16} {
 		for _, v := range []int{0, 1, 12, 13, 16} {
-			cs = append(cs, mk("width-congruent-nonce", v+1<<k, rng.Pick(lenClasses[:12]), rng.Pick(lenClasses[:24]), 16))
+			cs = append(cs, mk("width-congruent-nonce", v+1<<k, rng.Pick(zvLenClasses[:12]), rng.Pick(zvLenClasses[:24]), 16))
 		}
 		cs = append(cs, mk("width-congruent-nonce", 1<<k-1, 5, 33, 16))
 		cs = append(cs, mk("width-congruent-aad", 12, 1<<k, 20, 16), mk("width-congruent-aad", 12, 1<<k+1, 0, 16), mk("width-congruent-aad", 12, 1<<k-1, 16, 16), mk("width-congruent-aad", 12, 1<<k+16, 300, 16))
@@ -188,20 +188,20 @@ func gcmCases(rng *hk.RNG, scale int) []*gcmCase {
 	}
 	// tag sizes 12..16 at nonce 12
 	for tag := 12; tag <= 16; tag++ {
-		for _, pl := range lenClasses {
-			cs = append(cs, mk("tag-sweep", 12, rng.Pick(lenClasses[:12]), pl, tag))
+		for _, pl := range zvLenClasses {
+			cs = append(cs, mk("tag-sweep", 12, rng.Pick(zvLenClasses[:12]), pl, tag))
 		}
 	}
 	// BOTH non-standard at once (nonce size x tag size): the statement quantifies over the product; reached through
 	// the Block's own NewGCM(nonceSize, tagSize) on the accelerated path (skipped where no path offers it)
 	for _, nl := range []int{1, 8, 13, 16, 24, 60, 130} {
 		for tag := 12; tag <= 15; tag++ {
-			cs = append(cs, mk("nonce-x-tag", nl, rng.Pick(lenClasses[:12]), rng.Pick(lenClasses[:24]), tag))
+			cs = append(cs, mk("nonce-x-tag", nl, rng.Pick(zvLenClasses[:12]), rng.Pick(zvLenClasses[:24]), tag))
 		}
 	}
 	// class cross product (sampled in quick, full in thorough)
-	for _, pl := range lenClasses {
-		for _, al := range lenClasses {
+	for _, pl := range zvLenClasses {
+		for _, al := range zvLenClasses {
 			if scale < 2 && rng.Intn(6) != 0 {
 				continue
 			}
@@ -248,8 +248,8 @@ func gcmCases(rng *hk.RNG, scale int) []*gcmCase {
 	return cs
 }
 
-func isClassLen(l int) bool {
-	for _, c := range lenClasses {
+func zvIsClassLen(l int) bool {
+	for _, c := range zvLenClasses {
 		if c == l {
 			return true
 		}
@@ -259,8 +259,8 @@ func isClassLen(l int) bool {
 
 // wrapCases: nonces solved through GF(2^128) so that the pre-counter block has
 // low word 2^32-j: the 32-bit counter wraps j blocks into the message.
-func wrapCases(rng *hk.RNG, maxJ int) []*gcmCase {
-	var cs []*gcmCase
+func zvWrapCases(rng *hk.RNG, maxJ int) []*zvGcmCase {
+	var cs []*zvGcmCase
 	nonceLens := []int{16, 16, 17, 24, 31, 32, 48, 64, 127, 128, 129, 144, 200, 256}
 	for j := 0; j <= maxJ; j++ {
 		key := rng.Bytes(16)
@@ -276,12 +276,12 @@ func wrapCases(rng *hk.RNG, maxJ int) []*gcmCase {
 		if pl > 1400 {
 			pl = 1400
 		}
-		cs = append(cs, &gcmCase{key: key, nonce: nonce, aad: rng.Bytes(rng.Intn(40)), pt: rng.Bytes(pl), tag: 16, label: fmt.Sprintf("counter-wrap:j=%d", j)})
+		cs = append(cs, &zvGcmCase{key: key, nonce: nonce, aad: rng.Bytes(rng.Intn(40)), pt: rng.Bytes(pl), tag: 16, label: fmt.Sprintf("counter-wrap:j=%d", j)})
 	}
 	return cs
 }
 
-func ptrOf(b []byte) uintptr {
+func zvPtrOf(b []byte) uintptr {
 	if cap(b) == 0 {
 		return 0
 	}
